@@ -69,7 +69,20 @@ def main():
                 detail = [l for l in out.split("\n") if l.startswith("[check]   ")][:4]
                 res["checks"][p] = dict(exit=rc, violations=viol[:3], detail=detail,
                                         concrete=any("no-failing-input-found" not in v for v in viol))
-                print("%s  check %s: exit %d  %s" % (sid, p, rc, (viol[0] if viol else "no violation")))
+                print("%s  check %s: exit %d  %s" % (sid, p, rc, (viol[0] if viol else "no violation")), flush=True)
+                # keep the concrete replay as a corpus entry (run first by every later check)
+                for v in viol:
+                    if "no-failing-input-found" in v:
+                        continue
+                    try:
+                        rp = v.split("replay=")[1].split()[0]
+                        rj = json.load(open(rp))
+                        if rj.get("kind") == "violation" and rj.get("lines") and len(json.dumps(rj["lines"])) < 400000:
+                            json.dump(dict(lines=rj["lines"], model=len(json.dumps(rj["lines"])) < 60000, origin="seeded change %s: %s" % (sid, (rj.get("detail") or "")[:200])),
+                                      open(os.path.join(VERIF, "corpus", "%s-seed-%s.json" % (p, sid)), "w"))
+                            break
+                    except Exception as e:
+                        print("corpus entry skipped:", e)
         finally:
             clean()
         res["wall_s"] = round(time.time() - t0, 1)
